@@ -24,33 +24,37 @@ Ltac split_ifs :=
   end.
 
 Theorem gen_check_simplex_eq : forall b d u, g_check_simplex eps b d u = bcheck_simplex eps b d u.
-Proof. intros; unfold g_check_simplex, bcheck_simplex; split_ifs; reflexivity. Qed.
+Proof. intros; unfold g_check_simplex, bcheck_simplex; gen_unfold; cbv zeta; split_ifs; reflexivity. Qed.
 
 Theorem gen_check_base_rate_eq : forall a, g_check_base_rate eps a = in_unit eps a.
-Proof. reflexivity. Qed.
+Proof. intros; unfold g_check_base_rate; gen_unfold; cbv zeta; try reflexivity; split_ifs; reflexivity. Qed.
 
 Theorem gen_sx_try_new_eq : forall b d u,
   g_sx_try_new eps b d u = if bcheck_simplex eps b d u then Some (b, d, u) else None.
-Proof. intros; unfold g_sx_try_new; rewrite gen_check_simplex_eq; reflexivity. Qed.
+Proof.
+  intros; unfold g_sx_try_new; gen_unfold; rewrite ?gen_check_simplex_eq; cbv zeta; try reflexivity;
+  split_ifs; reflexivity.
+Qed.
 
 Theorem gen_sx_new_eq : forall b d u, g_sx_new eps b d u = g_sx_try_new eps b d u.
-Proof. reflexivity. Qed.
+Proof. intros; unfold g_sx_new; gen_unfold; cbv zeta; try reflexivity; split_ifs; reflexivity. Qed.
 
 Theorem gen_try_new_eq : forall b d u a, g_try_new eps b d u a = btry_new eps b d u a.
 Proof.
-  intros; unfold g_try_new, btry_new; rewrite gen_sx_try_new_eq, gen_check_base_rate_eq.
+  intros; unfold g_try_new, btry_new; gen_unfold; rewrite ?gen_sx_try_new_eq, ?gen_check_base_rate_eq, ?gen_check_simplex_eq;
+  cbv zeta.
   destruct (in_unit eps a); destruct (bcheck_simplex eps b d u); reflexivity.
 Qed.
 
 (* BOpinion::new panics exactly when try_new errs (both are None in the model) *)
 Theorem gen_new_eq : forall b d u a, g_new eps b d u a = btry_new eps b d u a.
-Proof. intros; unfold g_new; apply gen_try_new_eq. Qed.
+Proof. intros; unfold g_new; gen_unfold; cbv zeta; try apply gen_try_new_eq; split_ifs; try apply gen_try_new_eq; reflexivity. Qed.
 
 Theorem gen_projection_eq : forall x : @bop B, g_projection x = bprojection x.
-Proof. reflexivity. Qed.
+Proof. intros; unfold g_projection; gen_unfold; reflexivity. Qed.
 
 Ltac finish :=
-  rewrite ?gen_try_new_eq; cbv zeta; try reflexivity; split_ifs; try reflexivity; try discriminate.
+  gen_unfold; rewrite ?gen_new_eq, ?gen_try_new_eq; cbv zeta; try reflexivity; split_ifs; try reflexivity; try discriminate.
 
 Theorem gen_mul_eq : forall x y, g_mul eps x y = bmul eps x y.
 Proof. intros; unfold g_mul, bmul; finish. Qed.
@@ -80,20 +84,11 @@ Proof. intros; unfold g_trans_bsr, btrans_bsr; finish. Qed.
 Theorem gen_deduce_eq : forall x c0 c1 ay, g_deduce eps x (c0, c1) ay = bdeduce eps x c0 c1 ay.
 Proof.
   intros x [[b0 d0] u0] [[b1 d1] u1] ay.
-  unfold g_deduce, bdeduce, sx_b, sx_d, sx_u, g_projection, bprojection; cbn [fst snd].
-  rewrite ?gen_try_new_eq; cbv zeta.
-  destruct (gtb b0 b1) eqn:Hb; destruct (gtb d0 d1) eqn:Hd; cbn [andb orb negb Bool.eqb];
-    try reflexivity;
-    match goal with
-    | |- context [gtb ?p ?r] =>
-        lazymatch p with
-        | add (add (mul b0 _) _) _ => destruct (gtb p r) eqn:Hp
-        end
-    end;
-    match goal with
-    | |- context [gtb (add (bb x) ?q) (ba x)] => destruct (gtb (add (bb x) q) (ba x)) eqn:Hx
-    end;
-    cbn [andb orb negb]; reflexivity.
+  unfold g_deduce, bdeduce; gen_unfold; unfold sx_b, sx_d, sx_u, g_projection, bprojection; cbn [fst snd].
+  rewrite ?gen_new_eq, ?gen_try_new_eq; cbv zeta.
+  repeat match goal with
+  | |- context [gtb ?a ?b] => let H := fresh "Hc" in destruct (gtb a b) eqn:H
+  end; cbn [andb orb negb Bool.eqb]; reflexivity.
 Qed.
 
 End Eq.
